@@ -14,6 +14,7 @@
 """HTML Tree View (The default view for PyGlove objects)."""
 
 import inspect
+import re
 from typing import Any, Callable, Dict, Iterable, Literal, Optional, Sequence, Tuple, Union
 
 from pyglove.core import utils
@@ -633,7 +634,8 @@ class HtmlTreeView(HtmlView):
             Html.element(
                 'div',
                 [
-                    title or make_title(value),
+                    # NOTE: a class name is data too (e.g. `<lambda>`).
+                    title or Html.escape(make_title(value)),
                 ],
                 css_classes=['summary-title', css_classes],
             ),
@@ -1310,6 +1312,9 @@ class HtmlTreeView(HtmlView):
       class_name = f'{value.__name__}-class'
     else:
       class_name = type(value).__name__
+    # NOTE: a class name may hold characters that are not valid in a CSS class
+    # (or in an attribute value at all), e.g. `<lambda>`.
+    class_name = re.sub(r'[^A-Za-z0-9_-]', '-', class_name)
     return utils.camel_to_snake(class_name, '-')
 
   @staticmethod
